@@ -287,7 +287,7 @@ def gen_cache_case(rng):
     calls = valid_calls(sig, rng, cap=6)
     # distinct values pool without numeric collisions
     pool = []
-    vals = ['x', 'y', 2, 3, None, 'z', 5, ('t', 1), 7.5]
+    vals = ['x', 'y', 2, 3, None, 'z', 5, ('t', 1), 7.5, -1, -2, 2 ** 61 - 1, 0, -1, -2]   # hash(-1) == hash(-2), hash(2**61-1) == hash(0): distinct arguments, equal hashes
     for c in calls:
         for _ in range(2):
             m = {}
